@@ -9,7 +9,8 @@ over all accepted histories of any length, any number of members, partitions and
 
 `Since X B pre` : an event satisfying `X` occurs in `pre` and no `B` event occurs after it.
 `epochB m`      : `m` adopts an assignment (`asgS m ..`) or its subscription changes (`sub m`).
-`gateB m`       : `epochB m` or `m`'s revoke callback starts (`revS m`).
+`gateB m`       : `epochB m`, or `m`'s revoke callback starts (`revS m`), or `m` left the group by
+                  itself (`leaveR m`).
 `prepB m`       : `m` adopts an assignment or a revoke callback of `m` starts.
 `FetchedIn m p lo hi pre` : `pre = a ++ fR m p lo hi :: b` with no `epochB m` event in `b` and
                   `Since (· = fS m p lo) (epochB m) a` — the fetch reply and the request it answers
@@ -171,6 +172,23 @@ theorem c05_silent_after_subscription_change {pre mid post : List Ev} {m p o : N
   obtain ⟨c, hc⟩ := split_after hab hy (by simp)
   exact ⟨c, b, g, tps, hc, hp, hb⟩
 
+/-- … and after the member left the group by itself (its application did not poll for
+    `max_poll_interval_ms`): whatever is still buffered belongs to partitions the rest of the
+    group has taken over; nothing is returned until a later adoption -/
+theorem c05_silent_after_leave {pre mid post : List Ev} {m p o : Nat}
+    (h : accepts (pre ++ .leaveR m :: (mid ++ .deliver m p o :: post)) = true) :
+    ∃ mid1 mid2 g tps, mid = mid1 ++ .asgS m g tps :: mid2 ∧ p ∈ tps ∧
+      ∀ e ∈ mid2, gateB m e = false := by
+  have h' : accepts ((pre ++ .leaveR m :: mid) ++ .deliver m p o :: post) = true := by
+    simpa using h
+  obtain ⟨g, tps, ⟨a, x, b, hab, rfl, hb⟩, hp⟩ := c05_delivery_needs_live_assignment h'
+  have hy : Ev.leaveR m ∉ b := by
+    intro hin
+    have := hb _ hin
+    simp [gateB, isLeave] at this
+  obtain ⟨c, hc⟩ := split_after hab hy (by simp)
+  exact ⟨c, b, g, tps, hc, hp, hb⟩
+
 /-- **stale data is never delivered**: a delivered record was returned by a Fetch that was issued
     — and answered — after the member's latest adoption and subscription change -/
 theorem c05_stale_data_never_delivered {pre post : List Ev} {m p o : Nat}
@@ -214,6 +232,22 @@ theorem c05_revoke_before_assign_groupwide {pre post : List Ev} {g : Nat}
   obtain ⟨t, ht⟩ := hm
   exact I.prep m (I.wait m (hg.2 m t ht).1).1
 
+/-- a member that takes part in a rebalance is not dropped in the middle of it: the coordinator does
+    not expire the session of a live member while its `on_partitions_revoked` callback runs (the
+    heartbeat task keeps running during the join preparation), so the join barrier — which waits
+    for every member it knows — cannot complete, and nobody's `on_partitions_assigned` for the
+    resulting generation can start, while that callback is still running -/
+theorem c05_no_expiry_during_revoke {pre post : List Ev} {m : Nat}
+    (h : accepts (pre ++ .expire m :: post) = true) :
+    ¬ Since (· = .revS m) (isRevE m) pre ∨ .gone m ∈ pre := by
+  obtain ⟨s, _, I, hg, _⟩ := reach_of_accepts h
+  by_cases hs : Since (· = .revS m) (isRevE m) pre
+  · right
+    have h1 := I.inrev m hs
+    simp [guard, h1] at hg
+    exact I.dead m hg
+  · exact Or.inl hs
+
 /-- the two together, on one history: generation formed, then an assign callback for it — every
     member's revoke callback ended before the generation was formed -/
 theorem c05_revoke_before_assign {pre mid post : List Ev} {g m' : Nat}
@@ -252,6 +286,15 @@ example : accepts demo = true := by decide
 example : accepts [ .revS 0, .revE 0, .joinS 0 [0] true, .genStart 1 [(0, [0])], .joinR 0 (some 1),
     .distribute 1 [(0, [0])], .syncR 0 1 [0], .asgS 0 1 [0], .asgE 0, .fS 0 0 0, .fR 0 0 0 4,
     .revS 0, .deliver 0 0 0 ] = false := by decide
+
+/-- … a member that left the group by itself and then hands out buffered records is rejected -/
+example : accepts [ .revS 0, .revE 0, .joinS 0 [0] true, .genStart 1 [(0, [0])], .joinR 0 (some 1),
+    .distribute 1 [(0, [0])], .syncR 0 1 [0], .asgS 0 1 [0], .asgE 0, .fS 0 0 0, .fR 0 0 0 4,
+    .leaveR 0, .deliver 0 0 0 ] = false := by decide
+
+/-- … a session that runs out while the revoke callback runs is rejected, unless the member is dead -/
+example : accepts [ .revS 0, .expire 0 ] = false ∧ accepts [ .revS 0, .gone 0, .expire 0 ] = true ∧
+    accepts [ .revS 0, .revE 0, .expire 0 ] = true := by decide
 
 /-- … overlapping assignments are rejected at the leader's SyncGroup -/
 example : accepts [ .revS 0, .revE 0, .joinS 0 [0] true, .revS 1, .revE 1, .joinS 1 [0] true,
